@@ -15,7 +15,7 @@ TECHNIQUE = (
     "pair of gaps of a short text x all span tuples x {skip, wrap}; lxml judges well-formedness and text content"
 )
 RULE = (
-    "sources = all element trees with <= 2 (quick) / 3 (thorough) elements over tags {i,b,p} (nested, sequential, empty) "
+    "sources = all element trees with <= 2 (quick) / 3 (thorough) elements over tags {i,b,p} (and, for <= 2 elements, {I,em,s}) (nested, sequential, empty) "
     "at all gap positions of 'wxyz' (thorough also 'wxyzu'), de-duplicated by serialisation; spans = all ordered tuples of "
     "<= 2 spans (empty included); before/after = <a>/</a>. non-trivial = source contains >= 1 tag strictly inside or at the "
     "edge of a requested non-empty span."
@@ -27,11 +27,12 @@ ASSUMPTIONS = [
 ]
 
 TAGS = ["i", "b", "p"]
+TAGS2 = ["I", "em", "s"]  # upper-case style tag, the third style tag, a tag the balancing does not know
 CFG = {"quick": [("wxyz", 2)], "thorough": [("wxyz", 3), ("wxyzu", 2)]}
 
 
 def bounds(tier):
-    return {"texts_and_max_elements": CFG[tier], "tags": TAGS, "spans_per_call": 2, "modes": ["skip", "wrap"]}
+    return {"texts_and_max_elements": CFG[tier], "tags": TAGS, "tags_2": TAGS2, "spans_per_call": 2, "modes": ["skip", "wrap"]}
 
 
 def check(plain, source, ss, mode):
@@ -78,6 +79,8 @@ def shards(tier, seed):
         n = 16 if mx <= 2 else 64
         for r in range(n):
             out.append({"plain": plain, "max_el": mx, "r": r, "n": n})
+            if mx <= 2:
+                out.append({"plain": plain, "max_el": mx, "r": r, "n": n, "tags": TAGS2})
     return out
 
 
@@ -85,10 +88,10 @@ def run_shard(sh):
     st = Stats()
     plain = sh["plain"]
     p = st.part(f"{plain}-{sh['max_el']}el")
-    assert len(set(plain)) == len(plain) and not (set(plain) & set("ibpa"))
+    assert len(set(plain)) == len(plain) and not (set(plain) & set("ibpaIems"))
     sets = list(annot.span_sets(len(plain), 2))
     seen = set()
-    for tree in itertools.islice(annot.element_trees(len(plain), TAGS, sh["max_el"]), sh["r"], None, sh["n"]):
+    for tree in itertools.islice(annot.element_trees(len(plain), sh.get("tags") or TAGS, sh["max_el"]), sh["r"], None, sh["n"]):
         source = annot.render_tree(plain, tree)
         if source in seen:
             continue
